@@ -476,7 +476,7 @@ def gen(rng, tier):
         su, sv = rng.choice([(2, 3), (3, 2), (2, 4), (4, 3), (3, 3), (2, 2), (1, 3), (3, 1)])
         rows = [[[_coord(rng, False) for _ in range(3)] + [_weight(rng, False)] for _ in range(sv)] for _ in range(su)]
         for op in ('flip2d', 'w2d', 'uw2d'):
-            out.append(Case(op, "%s %s" % (op, rows_canon(rows)), dict(rows=rows, su=su, sv=sv)))
+            out.append(Case(op, "%s-file %s" % (op, rows_canon(rows)), dict(rows=rows, su=su, sv=sv)))
     # --- JSON (exact mode: dyadic numbers)
     for _ in range(36 * mul):
         kind = rng.choice(['curve', 'surface', 'surface', 'volume'])
